@@ -569,7 +569,10 @@ MANIFEST = {
             "runs twice, none vanishes (tasks may return true/false or throw); EVERY task scheduled at any time has run when, at a call "
             "boundary of the client, IsWorking() is false - and already when the worker has cleared running_ "
             "(C15_every_task_runs_before_idle, C15_every_task_runs_when_worker_quits: the full statement, for the hand-over through "
-            "running_ under Deployer::mutex_ of /repo 9f55844; inductive invariant, no bound); deploy "
+            "running_ under Deployer::mutex_ of /repo 9f55844; inductive invariant, no bound); RimeSyncUserData destroys the "
+            "sessions before it schedules its tasks and starts its worker - the session table is empty from the first step of the call "
+            "to its return (C15_sync_user_data_cleans_first; the order is observable on the real code through the `cleanup` event of "
+            "hook 074aebe); deploy "
             "notifications are (start result+)* complete whenever no worker exists; no two conflicting accesses of the generated "
             "lock-scope table are enabled together (race_free, including running_ and StartWork's now locked queue reads); the handler "
             "is never called empty. The model has both hand-over shapes, selected by the table and by the statement skeletons of "
